@@ -123,6 +123,15 @@ def run(tier, seed):
                     n = want + delta
                     if 0 <= n <= 400000:
                         cases.append({"w": w, "h": h, "bpp": bpp, "comp": False, "data": [(i * 31 + 7) % 256 for i in range(n)]})
+        # very wide / very tall images (the 16-bit dimensions at and around 0x4000, 0x8000, 0xffff) with no, little and
+        # exactly one row of data: size arithmetic must be done in a type that holds width * 4 and width * height * 4
+        for big_dim in (16383, 16384, 16385, 32767, 32768, 65535):
+            for other in (0, 1, 2):
+                for (w, h) in ((big_dim, other), (other, big_dim)):
+                    for bpp in (16, 32):
+                        for comp in (False, True):
+                            for data in ([], [0, 0, 0, 0], [1, 2, 3, 4, 5, 6, 7, 8], [(i * 7) % 256 for i in range(min(w * (bpp // 8) * min(h, 1), 300000))]):
+                                cases.append({"w": w, "h": h, "bpp": bpp, "comp": comp, "data": data})
         big = [c for c in cases if c["w"] * c["h"] > 4096]
         small = [c for c in cases if c["w"] * c["h"] <= 4096]
         exp = codec.expect(wd, small, "c08")
